@@ -27,9 +27,9 @@ fired are listed. The unmodified tree is silent.
     => "hssp|d=1..5|wrong-size".
  M3 [verified] _multi_objective._is_pareto_front_nd: `np.any(loss_values < loss_values[0], axis=1)`
     -> `<=`. The top row then always survives its own filter and the peeling loop never ends; every
-    optuna call runs under a 5 s interval timer => "wfg|d=3|hang", "wfg|d=4|hang", "wfg|d=5|hang".
+    optuna call runs under a 5 CPU-second interval timer => "wfg|d=3|hang", "wfg|d=4|hang", "wfg|d=5|hang".
  M4 [verified] _multi_objective._is_pareto_front_2d: `cummin_value1[1:] < cummin_value1[:-1]` -> `<=`
-    => "pareto_front|d=2|mismatch", "rank|d=2|exact-part-mismatch", "rank|d=2|tail-not-worse",
+    => "pareto_front|d=2|mismatch", "rank|d=2|exact-part-mismatch", "rank|d=2|tail-not-worse", "rank(penalty)|d=2|*",
     "wfg|d=2|value-mismatch".
  M5 [verified] _multi_objective._fast_non_domination_rank: tiers in the wrong order (NaN-penalty
     trials ranked before the infeasible ones)
@@ -351,13 +351,13 @@ def antichains(al: Alpha, nmax: int) -> Iterator[tuple]:
 
 def orders(idx: tuple, full: bool = True) -> list[tuple]:
     """Input orders of one multiset. full: every distinct permutation for n <= 3, otherwise four
-    fixed ones (sorted, reversed, rotated, odd/even interleaved). Not full: sorted, reversed, rotated
-    for n <= 3; sorted + interleaved otherwise."""
+    fixed ones (sorted, reversed, rotated, odd/even interleaved). Not full: sorted + rotated for
+    n <= 3; sorted + interleaved otherwise."""
     n = len(idx)
     if n <= 3 and full:
         cand = [tuple(idx[j] for j in p) for p in itertools.permutations(range(n))]
     elif n <= 3:
-        cand = [tuple(idx), tuple(idx[::-1]), tuple(idx[1:] + idx[:1])]
+        cand = [tuple(idx), tuple(idx[1:] + idx[:1])]
     else:
         b = list(idx)
         cand = [tuple(b), tuple(b[::-1]), tuple(b[n // 2:] + b[:n // 2]), tuple(b[1::2] + b[0::2])]
@@ -374,7 +374,7 @@ def orders(idx: tuple, full: bool = True) -> list[tuple]:
 # ------------------------------------------------------------------------------------------------
 # single-case checkers (shared by the enumeration and by --replay)
 # ------------------------------------------------------------------------------------------------
-HANG_S = 5.0  # a legal call takes well under a millisecond
+HANG_S = 5.0  # CPU seconds of this process (ITIMER_VIRTUAL: immune to a loaded machine); a legal call takes < 1 ms
 
 
 class Hang(BaseException):
@@ -390,15 +390,15 @@ def _on_alarm(signum: int, frame: Any) -> None:
 
 
 def call(fn: Callable, *a: Any, **k: Any) -> tuple[str, Any]:
-    signal.setitimer(signal.ITIMER_REAL, HANG_S)
+    signal.setitimer(signal.ITIMER_VIRTUAL, HANG_S)
     try:
         return "ok", fn(*a, **k)
     except Hang:
-        return "hang", f"Hang: no return within {HANG_S} s"
+        return "hang", f"Hang: no return within {HANG_S} CPU-seconds"
     except Exception as e:  # a legal input must not raise
         return "err", f"{type(e).__name__}: {e}"[:200]
     finally:
-        signal.setitimer(signal.ITIMER_REAL, 0)
+        signal.setitimer(signal.ITIMER_VIRTUAL, 0)
 
 
 def failed_call(part: Part, fnname: str, d: int, st: str, got: str, rep: dict) -> None:
@@ -543,7 +543,7 @@ def check_hssp(part: Part, d: int, pts: Sequence[Sequence[float]], ref: Sequence
 def _quiet() -> None:
     warnings.simplefilter("ignore")
     np.seterr(all="ignore")
-    signal.signal(signal.SIGALRM, _on_alarm)
+    signal.signal(signal.SIGVTALRM, _on_alarm)
 
 
 def w_lat(task: tuple, part: Part) -> None:
@@ -594,7 +594,7 @@ def w_lat(task: tuple, part: Part) -> None:
             nbs = [None] + list(range(1, n + 1)) if (full_orders or oi == 0) else [None, max(1, n // 2)]
             for nb in nbs:
                 check_rank(part, d, opts, None, nb, true, nontriv)
-        if nontriv and shard == 0:
+        if dup and dom and shard == 0 and len(set(idx)) >= 2:
             part.sample({"fn": "compute_hypervolume/_fast_non_domination_rank", "d": d, "points": pts,
                          "reference_points": "{max,max+1}^d of " + str(mx), "ranks": true_sorted}, cap=1)
 
@@ -616,7 +616,7 @@ def w_pen(task: tuple, part: Part) -> None:
                 part.add("penalty_vectors")
                 for nb in [None] + list(range(1, n + 1)):
                     check_rank(part, d, opts, pens, nb, true, nontriv)
-            if nontriv and shard == 0:
+            if dom and shard == 0:
                 part.sample({"fn": "_fast_non_domination_rank(penalty)", "d": d, "points": opts,
                              "penalty": [NAN, 1.0, 0.0, 2.0, -1.0][:n],
                              "expected": tier_ranks(o, lat.domby, [NAN, 1.0, 0.0, 2.0, -1.0][:n])}, cap=1)
@@ -658,7 +658,7 @@ def w_hssp(task: tuple, part: Part) -> None:
                     if n_uniq < k < n:
                         part.add("hssp_cases_fewer_unique_than_subset_size")
                     check_hssp(part, d, opts, ref, k, hv_of, nontriv)
-        if n >= 3 and n_uniq >= 2 and shard == 0:
+        if n >= 3 and n_uniq >= min(3, d + 1) and shard == 0:
             part.sample({"fn": "_solve_hssp", "d": d, "points": pts0, "subset_sizes": f"1..{n}",
                          "reference_points": "{max,max+1}^d of " + str(mx)}, cap=1)
 
@@ -723,7 +723,7 @@ def w_inf(task: tuple, part: Part) -> None:
             check_front(part, d, opts, False, [r == 0 for r in true], nontriv)
             for nb in [None] + list(range(1, n + 1)):
                 check_rank(part, d, opts, None, nb, true, nontriv)
-        if shard == 0 and nontriv and any(math.isinf(x) for p in pts for x in p):
+        if shard == 0 and dom and any(x == -INF for p in pts for x in p):
             part.sample({"fn": "extended alphabet", "d": d, "points": pts, "ranks": true_sorted}, cap=1)
 
 
@@ -754,7 +754,7 @@ def plan(tier: str) -> tuple[list[tuple], dict]:
 
     def add(kind: str, d: int, m: Any, ns: Sequence[int], shards: Sequence[int], flag: bool = True) -> None:
         bounds[kind].append({"d": d, "alphabet": (f"{{0..{m}}}^{d}" if isinstance(m, int) else f"{list(m)}^{d}"),
-                             "n": list(ns)})
+                             ("n_up_to" if kind == "hssp" else "n"): list(ns), "all_input_orders": bool(flag)})
         for n, s in zip(ns, shards):
             for sh in range(s):
                 tasks.append((kind, d, m, n, sh, s, flag))
